@@ -117,3 +117,54 @@ package store
 //@     invariant scan: 0 - 1 <= aofLast && aofLast < len(ds.aofSegs) && ds.aofSegs == old(ds.aofSegs) && ds.rdb == old(ds.rdb) && rdb == ds.rdb && segsWF(ds)
 //@   loop 2:
 //@     invariant oldest_first: z == 0 && aofLast < len(ds.aofSegs) && (ds.rdb == nil || (aofLast < 0 && ds.rdb == old(ds.rdb) && len(ds.aofSegs) == old(len(ds.aofSegs)))) && segsWF(ds) && len(ds.aofSegs) <= old(len(ds.aofSegs)) && (old(len(ds.aofSegs)) > 0 && len(ds.aofSegs) > 0 ==> ds.aofSegs[len(ds.aofSegs) - 1] == old(ds.aofSegs[len(ds.aofSegs) - 1]))
+
+// ---- writer replacement: the previous writer is retired (cache reset) before the new one ----
+// ---- creates its file, so retiring never removes what the new writer appends to (C05) --------
+//@ func Storer.GetAofWritter
+//@   arith int
+//@   properties C05
+//@   ghost var oldWriterRetired bool = false
+//@   requires nonnil: s != nil
+//@   modifies heap, oldWriterRetired
+//@   set oldWriterRetired = true at call CloseAofWriter
+//@   assert at call NewAofWriter: previous_writer_is_retired_before_the_new_one_opens_its_file: oldWriterRetired
+
+//@ func Storer.GetRdbWriter
+//@   arith int
+//@   properties C05
+//@   ghost var cacheReset bool = false
+//@   requires nonnil: s != nil
+//@   modifies heap, cacheReset
+//@   set cacheReset = true at call resetDataSet
+//@   assert at call NewRdbWriter: cache_is_reset_before_the_new_snapshot_is_created: cacheReset
+
+// ---- a snapshot is published (renamed from .rdb.tmp) only when every byte was written (C08) ---
+//   rdbWritten  bytes of the snapshot handed to the file without error by this writer
+//@ func io.Reader.Read(self, p) (n, err)
+//@   trusted library contract
+//@   modifies elems(p)
+//@   ensures count: 0 <= n && n <= len(p)
+
+//@ func RdbWriter.write
+//@   trusted frame (file append): nil means the whole buffer was written (io.Writer contract)
+//@   modifies s.offset
+
+//@ func RdbWriter.ingest
+//@   arith int
+//@   properties C08
+//@   ghost var rdbWritten mathint = 0
+//@   requires nonnil: s != nil && s.reader != nil && s.rdbSize >= 0
+//@   modifies heap, rdbWritten
+//@   set rdbWritten = rdbWritten + ite(result == nil, len(buf), 0) after call write
+//@   assert at call Store: only_bytes_written_to_the_file_count_as_received: arg1 == rdbWritten
+//@   loop 1:
+//@     invariant accounting: rdbWritten == s.rdbSize - rdbSize && s.rdbSize == old(s.rdbSize) && 0 <= rdbSize
+
+//@ func RdbWriter.closeRdb
+//@   arith int
+//@   properties C08
+//@   requires nonnil: s != nil
+//@   ghost var completeSeen mathint = 0
+//@   modifies heap, completeSeen
+//@   set completeSeen = ite(result == s.rdbSize, 1, 0) after call Load
+//@   assert at call Rename: only_a_completely_received_snapshot_is_published: completeSeen == 1
